@@ -596,6 +596,50 @@ func (c *Compiler) checkIdentities() error {
 	return nil
 }
 
+// validateTypedefsWalk reports typedefs that are defined in terms of
+// themselves (directly, through other typedefs or through union members).
+func (c *Compiler) validateTypedefsWalk(n parse.Node) {
+	if n.Type() == parse.NodeTypedef {
+		c.validateTypedef(n, make(map[parse.Node]bool))
+	}
+	for _, ch := range n.Children() {
+		c.validateTypedefsWalk(ch)
+	}
+}
+
+func (c *Compiler) validateTypedef(td parse.Node, onPath map[parse.Node]bool) {
+	if onPath[td] {
+		c.error(td, fmt.Errorf("Typedef cyclic reference: %s", td.Name()))
+	}
+	onPath[td] = true
+	defer delete(onPath, td)
+
+	var follow func(typ parse.Node)
+	follow = func(typ parse.Node) {
+		if typ == nil {
+			return
+		}
+		// Unknown prefixes and types are reported when the type is built.
+		var refType parse.Node
+		tname := typ.ArgIdRef()
+		if tname.Space != "" {
+			if refMod, err := typ.GetModuleByPrefix(
+				tname.Space, c.modules, true); err == nil && refMod != nil {
+				refType, _ = refMod.LookupType(tname.Local)
+			}
+		} else {
+			refType, _ = typ.LookupType(tname.Local)
+		}
+		if refType != nil {
+			c.validateTypedef(refType, onPath)
+		}
+		for _, member := range typ.ChildrenByType(parse.NodeTyp) {
+			follow(member)
+		}
+	}
+	follow(td.ChildByType(parse.NodeTyp))
+}
+
 func (c *Compiler) findMissingImportStatement(name string) parse.Node {
 	for _, module := range c.modules {
 		for _, ch := range module.GetModule().ChildrenByType(parse.NodeImport) {
@@ -655,6 +699,15 @@ func (c *Compiler) ExpandModules() (err error) {
 	err = c.checkIdentities()
 	if err != nil {
 		panic(fmt.Errorf("identity %s", err))
+	}
+
+	// Check for cycles in all typedefs: building a type follows the
+	// typedef chain recursively
+	for _, module := range c.modules {
+		c.validateTypedefsWalk(module.GetModule())
+		for _, sm := range module.GetSubmodules() {
+			c.validateTypedefsWalk(sm)
+		}
 	}
 
 	// Check for cycles in all groupings before applying
